@@ -210,7 +210,8 @@ theorem postRecv_ok (s : Sess) (h : RxHdr) (now : Nat) (b : Bool) (hr : (s.postR
 /-- well-shaped session table -/
 structure TInv (t : Table) : Prop where
   uidN : UidNodup t
-  uidB : UidBelow t
+  /-- the id allocator stays inside its 28 bits -/
+  uidR : t.nextUid ≤ 0x0fffffff
   /-- the receive key (local session id, peer) identifies the session -/
   keyI : ∀ a ∈ t.sessions, ∀ b ∈ t.sessions, a.localSid = b.localSid → a.port = b.port → a.uid = b.uid
   /-- no reserved session (see the header of `Model/RxPath.lean`); secure ⇔ local session id ≠ 0 -/
@@ -278,11 +279,7 @@ theorem tinv_setSess {t : Table} (ht : TInv t) {s y : Sess} (hs : s ∈ t.sessio
   have hmem := mem_setSess t ht.uidN y ⟨s, hs, hsame.uid.symm⟩
   have hsh := ht.shape s hs
   refine ⟨setSess_uidNodup t y ht.uidN, ?_, ?_, ?_, ?_, ?_, ?_, ?_, ?_⟩
-  · intro z hz
-    rw [setSess_nextUid]
-    rcases (hmem z).1 hz with h | ⟨h, _⟩
-    · rw [h, hsame.uid]; exact ht.uidB s hs
-    · exact ht.uidB z h
+  · rw [setSess_nextUid]; exact ht.uidR
   · intro a ha b hb h1 h2
     rcases (hmem a).1 ha with ea | ⟨ma, _⟩ <;> rcases (hmem b).1 hb with eb | ⟨mb, _⟩
     · rw [ea, eb]
@@ -327,7 +324,7 @@ theorem pend_setSess {t : Table} (hn : UidNodup t) {rx : Option Held} (hp : Pend
 theorem tinv_remove {t : Table} (ht : TInv t) (uid : Nat) : TInv (t.remove uid).1 := by
   have hmem := mem_remove t ht.uidN uid
   refine ⟨remove_uidNodup t uid ht.uidN, ?_, ?_, ?_, ?_, ?_, ?_, ?_, ?_⟩
-  · intro z hz; rw [remove_nextUid]; exact ht.uidB z ((hmem z).1 hz).1
+  · rw [remove_nextUid]; exact ht.uidR
   · intro a ha b hb; exact ht.keyI a ((hmem a).1 ha).1 b ((hmem b).1 hb).1
   · intro z hz; exact ht.shape z ((hmem z).1 hz).1
   · exact Nat.le_trans (remove_length_le t uid) ht.nSess
@@ -341,11 +338,11 @@ theorem pend_remove {t : Table} (hn : UidNodup t) {rx : Option Held} (hp : Pend 
   fun z hz => hp z ((mem_remove t hn uid z).1 hz).1
 
 /-- only the allocator positions changed -/
-theorem tinv_congr {t t' : Table} (ht : TInv t) (hs : t'.sessions = t.sessions) (hu : t.nextUid ≤ t'.nextUid)
+theorem tinv_congr {t t' : Table} (ht : TInv t) (hs : t'.sessions = t.sessions) (hu : t'.nextUid ≤ 0x0fffffff)
     (h1 : 1 ≤ t'.nextSid ∧ t'.nextSid ≤ 65535) (h2 : 1 ≤ t'.nextExch ∧ t'.nextExch ≤ 65535) : TInv t' := by
   refine ⟨?_, ?_, ?_, ?_, ?_, ?_, h1, h2, ?_⟩
   · unfold UidNodup; rw [hs]; exact ht.uidN
-  · intro z hz; rw [hs] at hz; exact Nat.lt_of_lt_of_le (ht.uidB z hz) hu
+  · exact hu
   · rw [hs]; exact ht.keyI
   · rw [hs]; exact ht.shape
   · rw [hs]; exact ht.nSess
@@ -357,10 +354,10 @@ theorem nextExchId_nextUid (t : Table) : t.nextExchId.1.nextUid = t.nextUid := r
 theorem nextExchId_nextSid (t : Table) : t.nextExchId.1.nextSid = t.nextSid := rfl
 
 theorem tinv_nextExchId {t : Table} (ht : TInv t) : TInv t.nextExchId.1 :=
-  tinv_congr ht rfl (Nat.le_refl _) ht.sidR (by unfold Table.nextExchId; exact allocLoop_next_range _ _ _)
+  tinv_congr ht rfl ht.uidR ht.sidR (by unfold Table.nextExchId; exact allocLoop_next_range _ _ _)
 
 theorem tinv_nextSessId {t : Table} (ht : TInv t) : TInv t.nextSessId.1 :=
-  tinv_congr ht rfl (Nat.le_refl _) (by unfold Table.nextSessId; exact allocLoop_next_range _ _ _) ht.xidR
+  tinv_congr ht rfl ht.uidR (by unfold Table.nextSessId; exact allocLoop_next_range _ _ _) ht.xidR
 
 /-! ### `get` / `get_for_rx` -/
 
@@ -1123,23 +1120,155 @@ theorem inv_closer {n : Node} (h : Inv n) : Inv (closer n).1 :=
 def freshSess (uid ctr now port : Nat) (r : Bool) : Sess :=
   { uid := uid, ctr := ctr % (Consts.msgCtrRange + 1), reserved := r, lastUse := now, port := port }
 
-/-- membership after `add` succeeded -/
+def incIter : Nat → Nat → Nat
+  | 0, c => c
+  | i + 1, c => incIter i (incUid c)
+
+theorem incUid_range (c : Nat) : incUid c ≤ 0x0fffffff := by
+  unfold incUid; split <;> omega
+
+theorem incUid_closed (c : Nat) (h : c ≤ 0x0fffffff) : incUid c = (c + 1) % 0x10000000 := by
+  unfold incUid; split <;> omega
+
+theorem incIter_closed (i : Nat) : ∀ c, c ≤ 0x0fffffff → incIter i c = (c + i) % 0x10000000 := by
+  induction i with
+  | zero => intro c h; simp only [incIter]; omega
+  | succ i ih =>
+    intro c h
+    simp only [incIter]
+    rw [ih (incUid c) (incUid_range c), incUid_closed c h]
+    omega
+
+theorem incIter_inj (c : Nat) (h : c ≤ 0x0fffffff) (i j : Nat) (hi : i < 0x10000000) (hj : j < 0x10000000)
+    (he : incIter i c = incIter j c) : i = j := by
+  rw [incIter_closed i c h, incIter_closed j c h] at he
+  omega
+
+theorem skipLive_live_imp (live : List Nat) : ∀ (fuel c : Nat), skipLive live fuel c ∈ live →
+    ∀ i, i ≤ fuel → incIter i c ∈ live := by
+  intro fuel
+  induction fuel with
+  | zero =>
+    intro c h i hi
+    have : i = 0 := by omega
+    subst this
+    simpa [skipLive, incIter] using h
+  | succ fuel ih =>
+    intro c h i hi
+    unfold skipLive at h
+    split at h
+    · rename_i hall
+      have : (c != c) = true := (List.all_eq_true.1 hall) c h
+      simp at this
+    · rename_i hall
+      cases i with
+      | zero =>
+        simp only [incIter]
+        apply Classical.byContradiction
+        intro hn
+        apply hall
+        rw [List.all_eq_true]
+        intro x hx
+        simp only [bne_iff_ne, ne_eq]
+        intro hxc
+        exact hn (hxc ▸ hx)
+      | succ i =>
+        simp only [incIter]
+        exact ih (incUid c) h i (by omega)
+
+theorem skipLive_fresh (live : List Nat) (c : Nat) (h : c ≤ 0x0fffffff) (fuel : Nat) (hlen : live.length ≤ fuel)
+    (hf : fuel < 0x0fffffff) : skipLive live fuel c ∉ live := by
+  intro hin
+  have hall := skipLive_live_imp live fuel c hin
+  have := pigeon (fun i => incIter i c) (fuel + 1) live
+    (fun i j hi hj he => incIter_inj c h i j (by omega) (by omega) he)
+    (fun i hi => hall i (by omega))
+  omega
+
+theorem skipLive_range (live : List Nat) : ∀ (fuel c : Nat), c ≤ 0x0fffffff → skipLive live fuel c ≤ 0x0fffffff := by
+  intro fuel
+  induction fuel with
+  | zero => intro c h; simpa [skipLive] using h
+  | succ fuel ih =>
+    intro c h
+    unfold skipLive
+    split
+    · exact h
+    · exact ih _ (incUid_range c)
+
+/-! ### the repaired `Sessions::add` (`addSess`) -/
+
+/-- the id `addSess` hands out -/
+def newUid (t : Table) : Nat := skipLive (t.sessions.map (·.uid)) t.sessions.length t.nextUid
+
+theorem newUid_fresh {t : Table} (hr : t.nextUid ≤ 0x0fffffff) (hcap : t.sessions.length ≤ Consts.maxSessions) :
+    ∀ s ∈ t.sessions, s.uid ≠ newUid t := by
+  intro s hs heq
+  have h16 : Consts.maxSessions < 0x0fffffff := by decide
+  apply skipLive_fresh (t.sessions.map (·.uid)) t.nextUid hr t.sessions.length (by simp) (by omega)
+  show newUid t ∈ _
+  rw [← heq]
+  exact List.mem_map_of_mem hs
+
+theorem addSess_eq (t : Table) (ctr : Nat) (r : Bool) (now port : Nat) :
+    addSess t ctr r now port = Table.add { t with nextUid := newUid t } ctr r now port := rfl
+
+theorem addSess_ok_sessions (t : Table) (ctr : Nat) (r : Bool) (now port uid : Nat)
+    (h : (addSess t ctr r now port).2 = .ok uid) :
+    uid = newUid t ∧ t.sessions.length < Consts.maxSessions ∧
+    (addSess t ctr r now port).1.sessions = t.sessions ++ [freshSess uid ctr now port r] := by
+  rw [addSess_eq] at h ⊢
+  exact add_ok_sessions { t with nextUid := newUid t } ctr r now port uid h
+
+theorem addSess_err_sessions (t : Table) (ctr : Nat) (r : Bool) (now port : Nat) (e : Err)
+    (h : (addSess t ctr r now port).2 = .error e) : (addSess t ctr r now port).1.sessions = t.sessions := by
+  rw [addSess_eq] at h ⊢
+  exact add_err_sessions { t with nextUid := newUid t } ctr r now port e h
+
+/-- membership after `addSess` succeeded -/
 theorem mem_add_ok {t : Table} {ctr : Nat} {r : Bool} {now port uid : Nat}
-    (h : (t.add ctr r now port).2 = .ok uid) (z : Sess) :
-    z ∈ (t.add ctr r now port).1.sessions ↔ z ∈ t.sessions ∨ z = freshSess uid ctr now port r := by
-  rw [(add_ok_sessions t ctr r now port uid h).2.2]
-  simp [freshSess]
+    (h : (addSess t ctr r now port).2 = .ok uid) (z : Sess) :
+    z ∈ (addSess t ctr r now port).1.sessions ↔ z ∈ t.sessions ∨ z = freshSess uid ctr now port r := by
+  rw [(addSess_ok_sessions t ctr r now port uid h).2.2]
+  simp
 
 theorem add_counters (t : Table) (ctr : Nat) (r : Bool) (now port : Nat) :
-    (t.add ctr r now port).1.nextSid = t.nextSid ∧ (t.add ctr r now port).1.nextExch = t.nextExch := by
+    (addSess t ctr r now port).1.nextSid = t.nextSid ∧ (addSess t ctr r now port).1.nextExch = t.nextExch := by
+  rw [addSess_eq]
   unfold Table.add
   by_cases hc : t.sessions.length ≥ Consts.maxSessions <;> simp [hc]
+
+theorem addSess_nextUid_range (t : Table) (ctr : Nat) (r : Bool) (now port : Nat) :
+    (addSess t ctr r now port).1.nextUid ≤ 0x0fffffff := by
+  rw [addSess_eq]
+  unfold Table.add
+  by_cases hc : t.sessions.length ≥ Consts.maxSessions <;> simp [hc] <;> split <;> omega
+
+/-- `addSess` keeps the internal ids unique — also after the 28-bit counter has wrapped -/
+theorem addSess_uidNodup {t : Table} (hn : UidNodup t) (hr : t.nextUid ≤ 0x0fffffff)
+    (hcap : t.sessions.length ≤ Consts.maxSessions) (ctr : Nat) (r : Bool) (now port : Nat) :
+    UidNodup (addSess t ctr r now port).1 := by
+  cases hres : (addSess t ctr r now port).2 with
+  | error e =>
+    unfold UidNodup; rw [addSess_err_sessions t ctr r now port e hres]; exact hn
+  | ok uid =>
+    obtain ⟨hu, _, hs⟩ := addSess_ok_sessions t ctr r now port uid hres
+    unfold UidNodup
+    rw [hs, List.map_append, List.nodup_append]
+    refine ⟨hn, by simp, ?_⟩
+    intro a ha b hb
+    simp only [List.map_cons, List.map_nil, List.mem_singleton] at hb
+    obtain ⟨s, hsm, rfl⟩ := List.mem_map.1 ha
+    rw [hb]
+    show s.uid ≠ uid
+    rw [hu]
+    exact newUid_fresh hr hcap s hsm
 
 /-- a table that consists of the sessions of `t` and one new session `y` with a fresh uid and a fresh
 receive key is well-shaped -/
 theorem tinv_insert {t t' : Table} (ht : TInv t) (y : Sess)
     (hmem : ∀ z, z ∈ t'.sessions ↔ z ∈ t.sessions ∨ z = y)
-    (hn : UidNodup t') (hb : UidBelow t') (hlen : t'.sessions.length ≤ Consts.maxSessions)
+    (hn : UidNodup t') (hb : t'.nextUid ≤ 0x0fffffff) (hlen : t'.sessions.length ≤ Consts.maxSessions)
     (h1 : 1 ≤ t'.nextSid ∧ t'.nextSid ≤ 65535) (h2 : 1 ≤ t'.nextExch ∧ t'.nextExch ≤ 65535)
     (hyk : ∀ s ∈ t.sessions, s.localSid = y.localSid → s.port ≠ y.port)
     (hys : y.reserved = false ∧ y.mode.enc = (y.localSid != 0)) (hye : y.exchs = []) : TInv t' := by
@@ -1171,23 +1300,17 @@ theorem pend_insert {t t' : Table} {rx : Option Held} (hp : Pend t rx) (y : Sess
   · exact hp z mz i e he hr
   · rw [ez] at he; simp [Sess.slot, hye] at he
 
-theorem add_nextUid_le (t : Table) (ctr : Nat) (r : Bool) (now port : Nat) (hw : t.nextUid < 0x0fffffff) :
-    t.nextUid ≤ (t.add ctr r now port).1.nextUid := by
-  unfold Table.add
-  have : ¬ t.nextUid + 1 > 0x0fffffff := by omega
-  by_cases hc : t.sessions.length ≥ Consts.maxSessions <;> simp [hc, this]
-
-/-- `add` refused: only the id allocator moved -/
+/-- `addSess` refused: only the id allocator moved -/
 theorem tinv_add_err {t : Table} (ht : TInv t) {ctr : Nat} {r : Bool} {now port : Nat} {e : Err}
-    (hw : t.nextUid < 0x0fffffff) (h : (t.add ctr r now port).2 = .error e) : TInv (t.add ctr r now port).1 :=
-  tinv_congr ht (add_err_sessions t ctr r now port e h) (add_nextUid_le t ctr r now port hw)
+    (h : (addSess t ctr r now port).2 = .error e) : TInv (addSess t ctr r now port).1 :=
+  tinv_congr ht (addSess_err_sessions t ctr r now port e h) (addSess_nextUid_range t ctr r now port)
     (by rw [(add_counters t ctr r now port).1]; exact ht.sidR) (by rw [(add_counters t ctr r now port).2]; exact ht.xidR)
 
 /-- the secure session `establish` puts into the table -/
 def secSess (uid ctr now port sid : Nat) (mode : Mode) : Sess :=
   { freshSess uid ctr now port false with localSid := sid, mode := mode }
 
-theorem quiet_establish (n : Node) (hw : n.t.nextUid < 0x0fffffff) (port : Nat) (mode : Mode) (ctr : Nat) :
+theorem quiet_establish (n : Node) (port : Nat) (mode : Mode) (ctr : Nat) :
     Quiet n.t (establish n port mode ctr).1.t := by
   intro rx ht hp
   unfold establish
@@ -1197,19 +1320,20 @@ theorem quiet_establish (n : Node) (hw : n.t.nextUid < 0x0fffffff) (port : Nat) 
     simp only
     have hta := tinv_nextSessId ht
     have hfresh := nextSessId_fresh ht
-    have hwa : n.t.nextSessId.1.nextUid < 0x0fffffff := hw
-    obtain ⟨hnb, hbb⟩ := add_uid_inv n.t.nextSessId.1 ctr false n.now port hta.uidN hta.uidB hwa
+    have hnb := addSess_uidNodup hta.uidN hta.uidR hta.nSess ctr false n.now port
+    have hbb := addSess_nextUid_range n.t.nextSessId.1 ctr false n.now port
     split
     · rename_i uid hok
-      obtain ⟨hu, hlt, hss⟩ := add_ok_sessions _ _ _ _ _ _ hok
+      obtain ⟨hu, hlt, hss⟩ := addSess_ok_sessions _ _ _ _ _ _ hok
+      have hfu := newUid_fresh hta.uidR hta.nSess
       have hmemb := mem_add_ok hok
       have hm0 := (hmemb (freshSess uid ctr n.now port false)).2 (Or.inr rfl)
-      have hs0 : (n.t.nextSessId.1.add ctr false n.now port).1.sess uid = some (freshSess uid ctr n.now port false) :=
+      have hs0 : (addSess n.t.nextSessId.1 ctr false n.now port).1.sess uid = some (freshSess uid ctr n.now port false) :=
         (sess_eq_some_iff _ hnb uid _).2 ⟨hm0, rfl⟩
       rw [hs0]
       simp only
       have hmem := mem_setSess _ hnb (secSess uid ctr n.now port n.t.nextSessId.2 mode) ⟨_, hm0, rfl⟩
-      have hmem2 : ∀ z, z ∈ ((n.t.nextSessId.1.add ctr false n.now port).1.setSess
+      have hmem2 : ∀ z, z ∈ ((addSess n.t.nextSessId.1 ctr false n.now port).1.setSess
           (secSess uid ctr n.now port n.t.nextSessId.2 mode)).sessions ↔
           z ∈ n.t.nextSessId.1.sessions ∨ z = secSess uid ctr n.now port n.t.nextSessId.2 mode := by
         intro z
@@ -1223,19 +1347,14 @@ theorem quiet_establish (n : Node) (hw : n.t.nextUid < 0x0fffffff) (port : Nat) 
         · rintro (hz | hz)
           · right
             refine ⟨(hmemb z).2 (Or.inl hz), ?_⟩
-            have := hta.uidB z hz
             show z.uid ≠ uid
-            omega
+            rw [hu]; exact hfu z hz
           · exact Or.inl hz
-      show TInv ((n.t.nextSessId.1.add ctr false n.now port).1.setSess (secSess uid ctr n.now port n.t.nextSessId.2 mode)) ∧
-        Pend ((n.t.nextSessId.1.add ctr false n.now port).1.setSess (secSess uid ctr n.now port n.t.nextSessId.2 mode)) rx
+      show TInv ((addSess n.t.nextSessId.1 ctr false n.now port).1.setSess (secSess uid ctr n.now port n.t.nextSessId.2 mode)) ∧
+        Pend ((addSess n.t.nextSessId.1 ctr false n.now port).1.setSess (secSess uid ctr n.now port n.t.nextSessId.2 mode)) rx
       refine ⟨?_, ?_⟩
       · refine tinv_insert hta _ hmem2 (setSess_uidNodup _ _ hnb) ?_ ?_ ?_ ?_ ?_ ?_ rfl
-        · intro z hz
-          rw [setSess_nextUid]
-          rcases (hmem2 z).1 hz with mz | ez
-          · exact hbb z ((hmemb z).2 (Or.inl mz))
-          · rw [ez]; exact hbb (freshSess uid ctr n.now port false) hm0
+        · rw [setSess_nextUid]; exact hbb
         · rw [setSess_length, hss]; simp; omega
         · rw [setSess_nextSid, (add_counters _ _ _ _ _).1]; exact hta.sidR
         · rw [setSess_nextExch, (add_counters _ _ _ _ _).2]; exact hta.xidR
@@ -1249,8 +1368,8 @@ theorem quiet_establish (n : Node) (hw : n.t.nextUid < 0x0fffffff) (port : Nat) 
           simpa using henc
       · exact pend_insert hp _ hmem2 rfl
     · rename_i er herr
-      exact ⟨tinv_add_err hta hwa herr, by
-        intro z hz; rw [add_err_sessions _ _ _ _ _ _ herr] at hz; exact hp z hz⟩
+      exact ⟨tinv_add_err hta herr, by
+        intro z hz; rw [addSess_err_sessions _ _ _ _ _ _ herr] at hz; exact hp z hz⟩
 
 theorem establish_rx (n : Node) (port : Nat) (mode : Mode) (ctr : Nat) :
     (establish n port mode ctr).1.rx = n.rx ∧ (establish n port mode ctr).1.now = n.now := by
@@ -1262,9 +1381,9 @@ theorem establish_rx (n : Node) (port : Nat) (mode : Mode) (ctr : Nat) :
     · split <;> exact ⟨rfl, rfl⟩
     · exact ⟨rfl, rfl⟩
 
-theorem inv_establish {n : Node} (h : Inv n) (hw : n.t.nextUid < 0x0fffffff) (port : Nat) (mode : Mode) (ctr : Nat) :
+theorem inv_establish {n : Node} (h : Inv n) (port : Nat) (mode : Mode) (ctr : Nat) :
     Inv (establish n port mode ctr).1 := by
-  have hq := quiet_establish n hw port mode ctr n.rx h.tinv h.pend
+  have hq := quiet_establish n port mode ctr n.rx h.tinv h.pend
   have hr := establish_rx n port mode ctr
   exact ⟨hq.1, by rw [hr.1]; exact hq.2, by rw [hr.1, hr.2]; exact h.time⟩
 
@@ -1422,7 +1541,7 @@ theorem quiet_evictSome (t : Table) (now : Nat) : Quiet t (evictSome t now).1 :=
   · exact (quiet_nextExchId t).trans (quiet_remove _ _)
   · exact Quiet.refl t
 
-theorem inv_arrive {n : Node} (h : Inv n) (hw : n.t.nextUid < 0x0fffffff) (m : Msg) (rnd : Nat) :
+theorem inv_arrive {n : Node} (h : Inv n) (m : Msg) (rnd : Nat) :
     Inv (arrive n m rnd).1 := by
   unfold arrive
   cases hrx : n.rx with
@@ -1442,15 +1561,16 @@ theorem inv_arrive {n : Node} (h : Inv n) (hw : n.t.nextUid < 0x0fffffff) (m : M
       · rename_i hcond
         split
         · rename_i uid hok
-          obtain ⟨hnb, hbb⟩ := add_uid_inv n.t rnd false n.now m.port h.tinv.uidN h.tinv.uidB hw
-          obtain ⟨hu, hlt, hss⟩ := add_ok_sessions _ _ _ _ _ _ hok
+          have hnb := addSess_uidNodup h.tinv.uidN h.tinv.uidR h.tinv.nSess rnd false n.now m.port
+          have hbb := addSess_nextUid_range n.t rnd false n.now m.port
+          obtain ⟨hu, hlt, hss⟩ := addSess_ok_sessions _ _ _ _ _ _ hok
           have hmemb := mem_add_ok hok
           have hm0 := (hmemb (freshSess uid rnd n.now m.port false)).2 (Or.inr rfl)
-          have hs0 : (n.t.add rnd false n.now m.port).1.sess uid = some (freshSess uid rnd n.now m.port false) :=
+          have hs0 : (addSess n.t rnd false n.now m.port).1.sess uid = some (freshSess uid rnd n.now m.port false) :=
             (sess_eq_some_iff _ hnb uid _).2 ⟨hm0, rfl⟩
           rw [hs0]
           simp only
-          have htb : TInv (n.t.add rnd false n.now m.port).1 := by
+          have htb : TInv (addSess n.t rnd false n.now m.port).1 := by
             refine tinv_insert h.tinv (freshSess uid rnd n.now m.port false) hmemb hnb hbb ?_ ?_ ?_ ?_ ⟨rfl, rfl⟩ rfl
             · rw [hss]; simp; omega
             · rw [(add_counters _ _ _ _ _).1]; exact h.tinv.sidR
@@ -1463,46 +1583,46 @@ theorem inv_arrive {n : Node} (h : Inv n) (hw : n.t.nextUid < 0x0fffffff) (m : M
                 simp [Sess.isForRx, hk0, hp0', hcond.1, hsh.1, hsh.2]
               rw [hnone z hz] at this
               cases this
-          have hnpb : NoPending (n.t.add rnd false n.now m.port).1 :=
+          have hnpb : NoPending (addSess n.t rnd false n.now m.port).1 :=
             (pend_none_iff _).1 (pend_insert hp0 _ hmemb rfl)
           refine inv_finishArrive hrx htb hnpb hm0 m ?_
           simp [Sess.isForRx, freshSess, hcond.1, Mode.enc]
         · rename_i er herr
-          have htb := tinv_add_err h.tinv hw herr
-          have hpb : Pend (n.t.add rnd false n.now m.port).1 n.rx := by
-            intro z hz; rw [add_err_sessions _ _ _ _ _ _ herr] at hz; exact h.pend z hz
-          have hq := quiet_evictSome (n.t.add rnd false n.now m.port).1 n.now n.rx htb hpb
+          have htb := tinv_add_err h.tinv herr
+          have hpb : Pend (addSess n.t rnd false n.now m.port).1 n.rx := by
+            intro z hz; rw [addSess_err_sessions _ _ _ _ _ _ herr] at hz; exact h.pend z hz
+          have hq := quiet_evictSome (addSess n.t rnd false n.now m.port).1 n.now n.rx htb hpb
           exact ⟨hq.1, by rw [← hrx]; exact hq.2, by rw [← hrx]; exact h.time⟩
       · exact ⟨h.tinv, hp0, htime⟩
 
 /-! ## all histories -/
 
-theorem inv_step {n : Node} (h : Inv n) (hw : n.t.nextUid < 0x0fffffff) (op : Op) : Inv (step n op).1 := by
+theorem inv_step {n : Node} (h : Inv n) (op : Op) : Inv (step n op).1 := by
   cases op with
-  | arrive m rnd => exact inv_arrive h hw m rnd
+  | arrive m rnd => exact inv_arrive h m rnd
   | accept => exact inv_accept h
   | recv uid idx => exact inv_recv h uid idx
   | send uid idx rel => exact inv_send h uid idx rel
   | dropEx uid idx => exact inv_dropEx h uid idx
   | initiate uid => exact inv_initiate h uid
-  | establish port mode ctr => exact inv_establish h hw port mode ctr
+  | establish port mode ctr => exact inv_establish h port mode ctr
   | removeSess uid => exact inv_removeSess h uid
   | tick d => exact inv_tick h d
   | sweepAccept => exact inv_sweepAccept h
   | sweepOrphan => exact inv_sweepOrphan h
   | closer => exact inv_closer h
 
-/-- the states a node can be in: started with an empty table and an empty RX slot, then any history of
-steps — as long as the 28-bit internal session id counter has not wrapped (fewer than 2^28 sessions
-were ever created; `Sessions::add` does not check for collisions after a wrap) -/
+/-- the states a node can be in: started with an empty table and an empty RX slot, then ANY history
+of steps (no side condition: since the repair of finding `C10-session-id-wrap` the internal session
+ids stay unique also after the 28-bit counter has wrapped) -/
 inductive Reach : Node → Prop
   | init (now : Nat) : Reach { now := now }
-  | step {n : Node} (op : Op) : Reach n → n.t.nextUid < 0x0fffffff → Reach (step n op).1
+  | step {n : Node} (op : Op) : Reach n → Reach (step n op).1
 
 theorem inv_init (now : Nat) : Inv { now := now } := by
   refine ⟨⟨?_, ?_, ?_, ?_, ?_, ?_, ?_, ?_, ?_⟩, ?_, ?_⟩
   · exact List.nodup_nil
-  · intro s hs; cases hs
+  · exact Nat.zero_le _
   · intro a ha; cases ha
   · intro s hs; cases hs
   · exact Nat.zero_le _
@@ -1516,20 +1636,13 @@ theorem inv_init (now : Nat) : Inv { now := now } := by
 theorem inv_reach {n : Node} (h : Reach n) : Inv n := by
   induction h with
   | init now => exact inv_init now
-  | step op _ hw ih => exact inv_step ih hw op
+  | step op _ ih => exact inv_step ih op
 
-/-- `ops` can be run from `n` without the id counter wrapping -/
-def Admissible : Node → List Op → Prop
-  | _, [] => True
-  | n, op :: rest => n.t.nextUid < 0x0fffffff ∧ Admissible (step n op).1 rest
-
-theorem reach_run {n : Node} (h : Reach n) : ∀ (ops : List Op), Admissible n ops → Reach (run n ops).1 := by
+theorem reach_run {n : Node} (h : Reach n) : ∀ (ops : List Op), Reach (run n ops).1 := by
   intro ops
   induction ops generalizing n with
-  | nil => intro _; exact h
-  | cons op rest ih =>
-    intro ha
-    exact ih (Reach.step op h ha.1) ha.2
+  | nil => exact h
+  | cons op rest ih => exact ih (Reach.step op h)
 
 /-! ## how the slot, the clock and the accept-pending exchanges move in one step -/
 
@@ -1801,7 +1914,7 @@ theorem quiet_sweepOrphanNode (n : Node) : Quiet n.t (sweepOrphan n).1.t := by
   · exact quiet_sweepOrphan _ _ _ _ _
 
 /-- while a message waits, no step creates an accept-pending exchange -/
-theorem quiet_step (n : Node) (hrx : n.rx ≠ none) (hw : n.t.nextUid < 0x0fffffff) (op : Op) :
+theorem quiet_step (n : Node) (hrx : n.rx ≠ none) (op : Op) :
     Quiet n.t (step n op).1.t := by
   cases op with
   | arrive m rnd =>
@@ -1817,16 +1930,16 @@ theorem quiet_step (n : Node) (hrx : n.rx ≠ none) (hw : n.t.nextUid < 0x0fffff
   | send uid idx rel => exact quiet_send n uid idx rel
   | dropEx uid idx => exact quiet_dropExNode n uid idx
   | initiate uid => exact quiet_initiate n.t uid n.now
-  | establish port mode ctr => exact quiet_establish n hw port mode ctr
+  | establish port mode ctr => exact quiet_establish n port mode ctr
   | removeSess uid => exact quiet_remove n.t uid
   | tick d => exact Quiet.refl _
   | sweepAccept => exact quiet_sweepAcceptNode n
   | sweepOrphan => exact quiet_sweepOrphanNode n
   | closer => exact quiet_sweepDropped n.t n.now
 
-theorem noPending_step {n : Node} (h : Inv n) (hrx : n.rx ≠ none) (hw : n.t.nextUid < 0x0fffffff)
+theorem noPending_step {n : Node} (h : Inv n) (hrx : n.rx ≠ none)
     (hnp : NoPending n.t) (op : Op) : NoPending (step n op).1.t :=
-  (pend_none_iff _).1 (quiet_step n hrx hw op none h.tinv ((pend_none_iff _).2 hnp)).2
+  (pend_none_iff _).1 (quiet_step n hrx op none h.tinv ((pend_none_iff _).2 hnp)).2
 
 /-! ## when the sweeps, `accept_if` and `recv` fire -/
 
@@ -2249,14 +2362,6 @@ theorem ownerOf_none {t : Table} {m : Msg} (hn : ∀ s ∈ t.sessions, s.isForRx
   have : t.sessions.find? (fun s => s.isForRx m.port m.sid) = none := by
     rw [List.find?_eq_none]; intro s hs; simp [hn s hs]
   rw [this]
-
-instance admissibleDec : (n : Node) → (ops : List Op) → Decidable (Admissible n ops)
-  | _, [] => isTrue trivial
-  | n, op :: rest =>
-    match Nat.decLt n.t.nextUid 0x0fffffff, admissibleDec (step n op).1 rest with
-    | isTrue h1, isTrue h2 => isTrue ⟨h1, h2⟩
-    | isFalse h1, _ => isFalse (fun h => h1 h.1)
-    | _, isFalse h2 => isFalse (fun h => h2 h.2)
 
 /-! ## traffic of other exchanges keeps flowing -/
 
